@@ -164,10 +164,21 @@ def gen_message(rng, mutate=None):
         # a malformed header line (bare CR/LF inside, or a first line starting with
         # SP/HTAB) that ALSO carries bytes which are not valid UTF-8 / not ASCII
         junk = rng.choice([b"\xe9", b"\xff\xfe", b"caf\xe9", b"\x80", b"\xc3(", b"\xa0x"])
-        kind = rng.choice(["lf", "cr", "lead"])
+        kind = rng.choice(["lf", "cr", "lead", "fold-lf", "fold-cr", "fold-mid"])
         if kind == "lead":
             headers.insert(0, (rng.choice([b" ", b"\t"]) + b"X-" + junk, b"1"))
             headers_shuffled = False
+        elif kind in ("fold-lf", "fold-cr", "fold-mid"):
+            # an obs-fold continuation line that itself carries a bare LF / CR
+            # (at its end, or in the middle); sometimes on a framing header
+            name = rng.choice([b"X-Fold", b"X-Fold", b"Content-Length", b"Transfer-Encoding"])
+            first = {b"Content-Length": b"", b"Transfer-Encoding": b""}.get(name, b"a")
+            cont = {b"Content-Length": b"4", b"Transfer-Encoding": b"chunked"}.get(name, b"b" + junk)
+            bad = {"fold-lf": cont + b"\n", "fold-cr": cont + b"\r", "fold-mid": cont[:1] + b"\n" + cont[1:]}[kind]
+            headers = [(k, v) for k, v in headers if k.lower() not in (b"content-length", b"transfer-encoding")] \
+                if name in (b"Content-Length", b"Transfer-Encoding") else headers
+            headers.append((name, first + b"\r\n" + rng.choice([b" ", b"\t"]) + bad))
+            payload = payload if name == b"X-Fold" else b"abcd"
         elif kind == "lf":
             headers.append((b"X-Bad", b"a" + junk + b"\nb"))
         else:
